@@ -26,9 +26,24 @@ The combinators live in the hand-written, kernel-independent `Hdc/PyNpS.lean`.
 
 Instrumentation mode (py2lean_num.SafeMixin, kernels declared `safe=True`: gammafit, gammastd -> Hdc/Gen/SafeGammafit.lean,
 SafeGammastd.lean): see py2lean_num.py; `callees` lists the translated kernels whose instrumented versions are called.
+
+`gammastd_grp`, `gammastd_yxt` (-> Hdc/Gen/SafeGammastdGrp.lean, SafeGammastdYxt.lean) use the subclass `SafeS` of that mixin
+(cfg key `safe_mixin`), which knows the constructs of class `S`; its checks (predicates: hand-written Hdc/PySafeS.lean), all
+computed from the Python AST:
+  * `oob2 c i j`               `c[i, j]` on a 2-d array and `x[r, c, :]` (read or store) on a 3-d array: the first index is
+                               outside `[-rows, rows)` or the second outside `[-cols, cols)` of the ACTUAL row (ragged carrier)
+  * `badMask a.size m.size`    `a[m]`, `a[m] = v`, `a[m] = vals` with a boolean mask whose length differs from the array's
+  * `badMaskSet m vals.size`   `a[m] = vals`: the number of True cells differs from `len vals` (NumPy would also broadcast a
+                               length-1 value; the combinator `npMaskSet` does not, so that case is flagged as well)
+  * `badLen n k`               `y[r, c, :] = row` with `len row` different from the series length, `a[:] = array` with different
+                               lengths, `np.round(z, 0, out)` with `z`, `out` different arrays of different lengths
+  * `if p is None: p = e`      the checks of `e`, guarded by `p.isNone`
+Not instrumented (cannot raise): `array CMP scalar`, `array OP scalar`, `np.clip`, `np.full`, `np.full_like`, `.sum()`,
+`x.shape`, a scalar stored through a mask or into `y[r, c, :]` (broadcast).  Everything else: `Unsupported("safe: ...")`.
 """
 import ast
 import copy
+import re
 import sys
 from pathlib import Path
 
@@ -492,6 +507,120 @@ class S(base.K):
         return super().run()
 
 
+class SafeS(base.SafeMixin):
+    """the instrumentation of the constructs class `S` adds to `base.K` (see the module docstring)"""
+
+    def is_mask(self, sl):
+        if isinstance(sl, (ast.Slice, ast.Tuple)):
+            return False
+        try:
+            return self.typeof(sl) == "arrbool"
+        except Unsupported:
+            return False
+
+    def index2(self, arr, elts, out, g):
+        for i in elts:
+            if isinstance(i, ast.Slice) or self.typeof(i) != "int":
+                raise Unsupported("safe: multi-index that is not an integer")
+            self.ck(i, out, g)
+        out.append(self.guarded(g, f"oob2 {arr} {self.iexpr(elts[0])} {self.iexpr(elts[1])}"))
+
+    def ck(self, e, out, g=()):
+        if isinstance(e, ast.Subscript) and isinstance(e.value, ast.Name):
+            arr, sl = e.value.id, e.slice
+            at = self.ty.get(arr)
+            if at == "arrint2":
+                if not (isinstance(sl, ast.Tuple) and len(sl.elts) == 2):
+                    raise Unsupported("safe: 2-d array: only c[i, j]")
+                return self.index2(arr, sl.elts, out, g)
+            if at == "arr3num":
+                if not (isinstance(sl, ast.Tuple) and len(sl.elts) == 3 and self.full_slice(sl.elts[2])):
+                    raise Unsupported("safe: 3-d array: only x[r, c, :]")
+                return self.index2(arr, sl.elts[:2], out, g)
+            if at == "arrnum" and self.is_mask(sl):
+                self.ck(sl, out, g)
+                out.append(self.guarded(g, f"badMask {arr}.size ({self.aexpr(sl)}).size"))
+                return
+        return super().ck(e, out, g)
+
+    @staticmethod
+    def is_none_test(s):
+        return isinstance(s.test, ast.Compare) and any(isinstance(o, (ast.Is, ast.IsNot)) for o in s.test.ops)
+
+    def stmt_checks(self, s):
+        fresh = self.fresh          # the checks must not consume the bound-variable names of the statement itself
+        try:
+            self.last_checks = self.stmt_checks_(s)
+        finally:
+            self.fresh = fresh
+        return self.last_checks
+
+    def stmt_checks_(self, s):
+        out = super().stmt_checks(s)
+        if isinstance(s, ast.If) and self.is_none_test(s):
+            # `if p is None: p = e` is ONE statement of the translation (`let p := p.getD e`): the checks of `e` carry the guard
+            t = s.test
+            if not (len(t.ops) == 1 and isinstance(t.ops[0], ast.Is) and isinstance(t.left, ast.Name)
+                    and self.ty.get(t.left.id) == "optint" and len(s.body) == 1 and isinstance(s.body[0], ast.Assign)
+                    and not s.orelse):
+                raise Unsupported("safe: `is None` test other than `if p is None: p = e`")
+            self.ck(s.body[0].value, out, (f"{t.left.id}.isNone",))
+        if isinstance(s, ast.Assign):
+            for t in s.targets:
+                if not (isinstance(t, ast.Subscript) and isinstance(t.value, ast.Name)):
+                    continue
+                arr, sl, v = t.value.id, t.slice, s.value
+                at = self.ty.get(arr)
+                vt = self.typeof(v)
+                if at == "arr3num":
+                    if vt == "arrnum":
+                        r, c = self.iexpr(sl.elts[0]), self.iexpr(sl.elts[1])
+                        out.append(f"badLen (rd3 {arr} {r} {c}).size ({self.aexpr(v)}).size")
+                    elif vt not in ("num", "int"):
+                        raise Unsupported("safe: 3-d store value")
+                elif at == "arrnum" and self.is_mask(sl):
+                    if vt == "arrnum":
+                        out.append(f"badMaskSet {self.aexpr(sl)} ({self.aexpr(v)}).size")
+                    elif vt not in ("num", "int"):
+                        raise Unsupported("safe: masked store value")
+                elif isinstance(sl, ast.Slice):
+                    if not self.full_slice(sl):
+                        raise Unsupported("safe: store into a partial slice")
+                    if vt in ("arrnum", "arrint"):
+                        out.append(f"badLen {arr}.size ({self.aexpr(v)}).size")
+                    elif vt not in ("num", "int"):
+                        raise Unsupported("safe: slice store value")
+        if isinstance(s, ast.Expr) and isinstance(s.value, ast.Call) and is_np(s.value.func, "round"):
+            a = s.value.args
+            if not (len(a) == 3 and isinstance(a[0], ast.Name) and isinstance(a[2], ast.Name)):
+                raise Unsupported("safe: np.round form")
+            if a[0].id != a[2].id:
+                out.append(f"badLen {a[0].id}.size {a[2].id}.size")
+        return list(dict.fromkeys(out))
+
+    NET = [(r"(rdI2|rd3|wr3)", "oob2 "), (r"(npGather|npMaskFill|npMaskSet)", "badMask "), (r"npMaskSet", "badMaskSet ")]
+
+    def stmt(self, s, ind):
+        first = len(self.lines)
+        r = super().stmt(s, ind)
+        if not isinstance(s, (ast.For, ast.If)):
+            # safety net: a 2-d / 3-d / masked access in the emitted statement that no check accounts for
+            txt = " ".join(ln for ln in self.lines[first:] if not ln.strip().startswith("bad := (bad ||"))
+            for pat, need in self.NET:
+                if re.search(r"(?<![A-Za-z0-9_.])" + pat + r"(?![A-Za-z0-9_])", txt) \
+                        and not any(need in c for c in self.last_checks):
+                    raise Unsupported(f"safe: access without a `{need.strip()}` check in: " + txt[:80])
+        return r
+
+    def run(self):
+        self.emit(1, "-- additional checks (py2lean_spi.SafeS; predicates: Hdc/PySafeS.lean): `oob2` = a 2-d subscript `c[i, j]` / a 3-d")
+        self.emit(1, "-- subscript `x[r, c, :]` outside the rows / the columns of its row; `badMask` = a boolean mask whose length differs from")
+        self.emit(1, "-- the array's; `badMaskSet` = `a[m] = vals` with `m.sum() != len vals`; `badLen` = `y[r, c, :] = row` / `a[:] = b` /")
+        self.emit(1, "-- `np.round(z, 0, out)` with different lengths.  Not instrumented (cannot raise): array-vs-scalar comparisons and")
+        self.emit(1, "-- arithmetic, np.clip / np.full / np.full_like, `.sum()`, `x.shape`, scalars stored through a mask / into a series.")
+        return super().run()
+
+
 KERNELS = [
     dict(name="gammafit", file=STATS, func="gammafit", translator=S,
          params=[("x", "arrnum")], consts={"0.4": "F.c04"}, extra=GAMX, scope=["F", "digamma", "xtol", "rtol"],
@@ -507,12 +636,14 @@ KERNELS = [
          params=[("xx", "arrnum"), ("groups", "arrint"), ("num_groups", "int"), ("nodata", "num"), ("cal_indices", "arrint2"),
                  ("yy", "arrnum")],
          consts={}, extra=GAMX + " (rnd : α → α)", scope=["F", "digamma", "xtol", "rtol", "rnd"], inout=["yy"],
-         ret="yy", rty="Array α", uses="[IntCast α]", imports=["Hdc.PyNpS", "Hdc.Gen.NumGammastd"]),
+         ret="yy", rty="Array α", uses="[IntCast α]", imports=["Hdc.PyNpS", "Hdc.Gen.NumGammastd"],
+         safe=True, safe_mixin=SafeS, callees=["gammastd"], safe_imports=["Hdc.PySafeS", "Hdc.Gen.SafeGammastd"]),
     dict(name="gammastd_yxt", module="NumGammastdYxt", file=STATS, func="gammastd_yxt", translator=S,
          params=[("x", "arr3num"), ("nodata", "num"), ("cal_start", "optint"), ("cal_stop", "optint")],
          defaults={"cal_start": None, "cal_stop": None}, locals={"s": "arrnum"},
          consts={}, extra=GAMX + " (rnd : α → α)", scope=["F", "digamma", "xtol", "rtol", "rnd"],
-         ret=None, rty="Array (Array (Array α))", uses="[IntCast α]", imports=["Hdc.PyNpS", "Hdc.Gen.NumGammastd"]),
+         ret=None, rty="Array (Array (Array α))", uses="[IntCast α]", imports=["Hdc.PyNpS", "Hdc.Gen.NumGammastd"],
+         safe=True, safe_mixin=SafeS, callees=["gammastd"], safe_imports=["Hdc.PySafeS", "Hdc.Gen.SafeGammastd"]),
 ]
 
 
